@@ -662,6 +662,11 @@ def faint : CallOr :=
 def speech : CallOr :=
   { digSil := false, valid0 := true, mode := .silk, toCelt := false,
     subs := [{ valid := true, det := true, silk := [silkMain false] }] }
+/-- 60 ms packets: in CELT-only mode each is split into three 20 ms coded frames. -/
+def cfg60 : Cfg := { cfg with fs := 48000, q := 24 }
+def silent60 : CallOr :=
+  { digSil := true, valid0 := false, mode := .celt, toCelt := false,
+    subs := List.replicate 3 { valid := false, det := false, silk := [] } }
 /-- Speech whose SILK payload exceeds the frame budget (the bust branch). -/
 def speechBust : CallOr :=
   { digSil := false, valid0 := true, mode := .silk, toCelt := false,
